@@ -674,6 +674,22 @@ def r7_batch_invariant_reads(ctx):
                 r.violation("reads/%s@%s" % (f, short), "%s reads `%s` of the state being extended, which the earlier transactions of the same block have already changed: "
                             "the same transactions applied in one batch and one at a time are judged against different values" % (short, f), where)
     r.floor("validation bodies", n, 8)
+    # a whole-state read: a validation body that hands the state being extended to seal()/header() reads EVERY field through the callee — the coin tree, the
+    # transaction set and the fee pool of a state that already contains the earlier transactions of the block (D28: the height-0 fallback of the covenant
+    # environment's last header is `this.clone().seal(None).header()`)
+    for bid in sorted(prog.reach_from([ab.id])):
+        b = prog.by_id[bid]
+        if b.crate != "melstf" or not b.nname.startswith("melstf::state::applytx::") or bid in skip:
+            continue
+        for bi, e in q.all_call_exprs(b):
+            if e[0] == "call" and e[1].split("::")[-1] in ("seal", "header", "transactions_root_hash") and e[1].startswith(("melstf::state::UnsealedState", "melstf::state::SealedState")) \
+                    and q.contains(e, lambda y: y == ("param", 1, "this") or (isinstance(y, tuple) and y[0] == "upvar" and "this" in str(y[1]))):
+                short = b.nname.replace("melstf::state::applytx::", "").replace("{closure#", "c").replace("}", "")
+                short = short.split("::c")[0]
+                r.violation("reads/whole-state@%s" % short, "%s computes %s of the state being extended: a header of a state that already holds the earlier transactions of the block "
+                            "(before the first seal there is no previous header, and this one is handed to covenants as `last header`): a batch and the same transactions one at a "
+                            "time show covenants different headers" % (short, e[1].split("::")[-1]), b.where(bi))
+                break
     if not [x for x in r.records if x["verdict"] == "violation"]:
         r.ok("reads/none", "no validation body under apply_tx_batch_impl reads %s" % sorted(written))
 
